@@ -1,5 +1,5 @@
-// By-catch of the C06 work (negative numbers are outside the C06 property text, so the check executes these cases but does not
-// judge them): every CheckGroup() that derives the cofactor itself, k = (p-1)/q, accepts the subgroup order -q when the
+// STATUS: fixed in /repo c7a0fc0 (every CheckGroup refuses non-positive p, q); C06 now judges negative p, q, k as ill-formed.
+// By-catch of the C06 work (found while negative numbers were executed but not judged): every CheckGroup() that derives the cofactor itself, k = (p-1)/q, accepts the subgroup order -q when the
 // generator is not "canonical":
 //   HooghSchoenmakersSkoricVillegasVRHE, NaorPinkasEOTP, JareckiLysyanskayaRVSS/EDCF, GennaroJareckiKrawczykRabinDKG/NTS and
 //   CanettiGennaroJareckiKrawczykRabinRVSS/ZVSS/DKG/DSS with canonical_g_usage = false.
